@@ -1,3 +1,8 @@
+mod c01;
+mod c08;
+mod c09;
+mod c15;
+mod e2e_gen;
 mod c02;
 mod c03;
 mod c04;
@@ -42,6 +47,10 @@ fn main() {
             let mut s = session::Session::new();
             let mut rng = util::Rng::new(seed);
             match prop {
+                "C01" => c01::generate(&mut s, tier, &mut rng),
+                "C08" => c08::generate(&mut s, tier, &mut rng),
+                "C09" => c09::generate(&mut s, tier, &mut rng),
+                "C15" => c15::generate(&mut s, tier, &mut rng),
                 "C02" => c02::generate(&mut s, tier, &mut rng),
                 "C03" => c03::generate(&mut s, tier, &mut rng),
                 "C04" => c04::generate(&mut s, tier, &mut rng),
